@@ -4,6 +4,25 @@ schedule on the real no-libc binary (/verif/engines/probe-thread, hook H3), hist
 with a resource-fingerprint lasso, and system-call fault injection under strace.
 
 Entry points (kind="py" steps of /verif/check): run_c05(**kw), run_c06(**kw).
+
+Registry wiring:
+    import steps_thread
+    PYSTEPS["thread_c05"] = steps_thread.run_c05
+    PYSTEPS["thread_c06"] = steps_thread.run_c06
+    "C05": steps=[dict(kind="py", fn="thread_c05", name="thread", pkg="probe-thread", bin="probe-thread",
+                       phase=None, builds=steps_thread.SETUP_BUILDS)]           (C06 likewise with thread_c06)
+
+Both entry points share one set of probe executions per tier (cached in
+/verif/work/probe-thread.<tier>.cache.json, keyed by the probe binary and this file, valid 30 min);
+each reports only its own property's violation keys.
+
+Environment:
+    VERIF_THREAD_REPO=<dir>  build the probe against <dir>/tiny-std instead of /repo (a copy of the probe
+                             manifest with rewritten paths and its target dir are placed under
+                             <dir>/.probe-thread-*/, so removing <dir> removes everything).  Used to
+                             demonstrate detection on a mutated copy.
+
+Stand-alone:  python3 /verif/lib/steps_thread.py C05|C06 [quick|thorough] [--no-cache]
 """
 import atexit
 import concurrent.futures
@@ -27,6 +46,8 @@ RUSTFLAGS = "-C panic=abort -C link-arg=-nostartfiles"
 STACK_SZ = 8192 * 16 * 16
 M64 = (1 << 64) - 1
 WORKERS = 16
+# what `check --setup` builds (cargo build -p probe-thread in the crate's own directory)
+SETUP_BUILDS = [dict(pkg="probe-thread", bin="probe-thread", cwd=CRATE, target_dir=TARGET, build_env={"RUSTFLAGS": RUSTFLAGS})]
 
 GATE = {
     1: "SPAWN_BLOCK_ALLOCATED", 2: "SPAWN_STACK_MAPPED", 3: "SPAWN_BEFORE_CLONE", 4: "SPAWN_AFTER_CLONE",
@@ -37,6 +58,7 @@ GATE = {
     40: "PANIC_BEFORE_FREE_TLS", 41: "PANIC_BEFORE_CAS", 42: "PANIC_BEFORE_RESET_TID",
     43: "PANIC_BEFORE_FREE_BLOCK", 44: "PANIC_BEFORE_UNMAP_EXIT",
 }
+JOIN_OPS = ("j", "J", "w")  # join at once / after the thread is gone / while the thread still sleeps
 KGATE = 99  # model-only step: kernel exit of the thread (clear-tid write + wake)
 
 # ======================================================================================
@@ -461,8 +483,9 @@ def build_probe(env=None):
     e["CARGO_TARGET_DIR"] = target
     p = subprocess.run(["cargo", "build", "--offline"], cwd=crate, env=e, stdout=subprocess.PIPE, stderr=subprocess.STDOUT, text=True)
     if p.returncode != 0:
-        raise RuntimeError("build of probe-thread failed (the probe no longer fits the repository sources?)\n" +
-                           "\n".join(p.stdout.splitlines()[-40:]))
+        print("MACHINERY-FAILURE: build of probe-thread failed (the probe no longer fits the repository sources?)\n" +
+              "\n".join(p.stdout.splitlines()[-40:]), flush=True)
+        sys.exit(2)
     binp = os.path.join(target, "debug", "probe-thread")
     _BUILD[repo] = binp
     return binp
@@ -781,7 +804,7 @@ def resource_checks(v, rep, specs, preds, ungated=False):
         if pred is not None:
             g = pred["block_free_by"]
             once(s["block"], "join-block", "handle" if g in (12, 22) else "thread", [g])
-        elif op == "j":
+        elif op in JOIN_OPS:
             once(s["block"], "join-block", "handle", [12])
         else:
             # ungated drop: whoever lost the CAS frees, both legal; consistency of party and gate
@@ -801,12 +824,12 @@ def resource_checks(v, rep, specs, preds, ungated=False):
         else:
             once(s["closure"], "closure", "thread", [35], may_leak=panics)
         # heap memory owned by the result value
-        joined_some = (op == "j" and not panics)
+        joined_some = (op in JOIN_OPS and not panics)
         for rec in s["values"]:
             good = [f for f in rec["frees"] if not f.get("bad")]
             if joined_some:
                 once(rec, "result-heap", "handle", None)
-            elif not good and not panics and op != "j":
+            elif not good and not panics and op not in JOIN_OPS:
                 v.add("C06:drop-unjoined:result-not-dropped",
                       "thread %d returned a %s; its handle was dropped, not joined: the join block was freed but the value's destructor never ran - "
                       "%d bytes at %#x allocated by the thread stay live for ever" % (o, ty, rec["size"], rec["addr"]))
@@ -844,13 +867,15 @@ def value_checks(v, rep, specs, preds, tag_of=lambda o: o):
         if rep["spawn"].get(o, (1, 0))[0] != 1:
             v.add("C05:spawn:failed-without-fault", "spawn %d returned Err although no system call failed" % o)
             continue
+        if o in rep["tids"] and rep["tids"][o] in (0, rep["main_tid"]) and (runs_ := rep["runs"].get(o)) and runs_["runs"]:
+            v.add("C05:closure:not-on-a-new-thread", "thread %d: the closure ran on tid %d (main thread is %d)" % (o, rep["tids"][o], rep["main_tid"]))
         runs = rep["runs"].get(o)
         if runs is None or runs["runs"] != 1:
             n = runs["runs"] if runs else 0
             v.add("C05:closure:ran-%d-times" % n, "thread %d (%s): closure body ran %d times" % (o, ty, n))
         elif runs["effect"] != effect_val(tag_of(o)):
             v.add("C05:closure:effect-lost", "thread %d: the closure's write is not in memory after the thread is gone" % o)
-        if op in ("j", "J", "w"):
+        if op in JOIN_OPS:
             j = rep["join"].get(o)
             if j is None:
                 v.add("C05:join:hangs", "thread %d: join did not return" % o)
@@ -941,7 +966,7 @@ def strace_checks(v, rep, specs, preds, events):
             if not preds[o]["reset_tid"] and resets:
                 v.add("C05:conformance:unexpected-set-tid-address", "thread %d: set_tid_address although the thread won the flag" % o)
         # join returned => munmap (and exit) already logged
-        if op in ("j", "J", "w"):
+        if op in JOIN_OPS:
             mk = [x for x in events if x["name"] == "munmap" and x["pid"] == main and x["args"].startswith("0x1, %d" % (0x1000 + o * 16 + 2))]
             if mk:
                 if not (e["i1"] is not None and e["i1"] < mk[0]["i0"]):
@@ -984,13 +1009,17 @@ def crash_check(v, res, rep, specs=None):
         return True
     if rep["stuck"]:
         want = rep["stuck"]["want"]
-        name = GATE.get(want[1], "end-of-schedule") if want[0] != "end" else "end-of-schedule"
-        if rep["stuck"]["why"] != "gate-not-reached":
-            name = rep["stuck"]["why"]
         w = rep["stuck"]["waiter"]
-        v.add("C05:conformance:" + name,
-              "the real threads cannot follow the model trace: schedule entry %d (thread %s gate %s) was never reached; "
-              "a thread waits at gate %s of thread %d instead" % (rep["stuck"]["pos"], want[0], name, GATE.get(w[1], w[1]), w[0]))
+        if rep["stuck"]["why"] != "gate-not-reached":
+            v.add("C05:conformance:" + rep["stuck"]["why"], "gate %s: %s" % (GATE.get(w[1], w[1]), rep["stuck"]["why"]))
+        elif want[0] == "end":
+            v.add("C05:conformance:unexpected-" + GATE.get(w[1], str(w[1])),
+                  "the real threads do not follow the model trace: the schedule was used up, yet thread %d arrives at gate %s" % (w[0], GATE.get(w[1], w[1])))
+        else:
+            name = GATE.get(want[1], str(want[1]))
+            v.add("C05:conformance:" + name,
+                  "the real threads cannot follow the model trace: schedule entry %d (thread %s gate %s) was never reached; "
+                  "a thread waits at gate %s of thread %d instead" % (rep["stuck"]["pos"], want[0], name, GATE.get(w[1], w[1]), w[0]))
         return True
     if res["rc"] != 0 or not rep["done"]:
         v.add("C05:probe:crashed", "probe ended with status %s without completing its report; stderr: %s; last output: %s" %
@@ -1088,7 +1117,7 @@ def eval_hist(binp, case):
     specs = [tuple(s) for s in case["specs"]]
     reps = case["reps"]
     log = case.get("log", False)
-    argv = ["hist", "1500", str(reps), "1" if log else "0", spec_str(specs)]
+    argv = ["hist", "3000", str(reps), "1" if log else "0", spec_str(specs)]
     res = run_probe(binp, argv, strace=False, timeout=60)
     rep = parse_report(res["out"])
     v = V()
@@ -1100,7 +1129,7 @@ def eval_hist(binp, case):
     if h["hangs"]:
         v.add("C05:join:hangs", "%d threads of the history never went away" % h["hangs"])
     if h["bad_runs"]:
-        v.add("C05:closure:ran-N-times", "%d threads of the history ran their closure not exactly once" % h["bad_runs"])
+        v.add("C05:closure:ran-not-once", "%d threads of the history ran their closure not exactly once" % h["bad_runs"])
     if h["bad_join"]:
         v.add("C05:join:wrong-value", "%d joins of the history returned the wrong Some/None or lost the closure's write" % h["bad_join"])
     all_specs = specs * reps
@@ -1194,10 +1223,21 @@ def eval_fault(binp, case):
             rec = s[res_]
             if rec and not rec["frees"]:
                 leaked.append("%s(%d bytes)" % (res_, rec["size"]))
+    if which == "clone" and sp is not None and sp[0] == 0:
+        # the stack mapped for the thread that never came to be must be unmapped again
+        main = rep["main_tid"]
+        stacks = [e for e in ev if e["pid"] == main and e["name"] == "mmap" and e["ret"] and e["ret"].startswith("0x")
+                  and len(e["args"].split(",")) > 1 and e["args"].split(",")[1].strip() == str(STACK_SZ)]
+        if victim < len(stacks):
+            st = int(stacks[victim]["ret"], 16)
+            un = [e for e in ev if e["name"] == "munmap" and e["i0"] > stacks[victim]["i0"] and e["args"].startswith("%#x, %d" % (st, STACK_SZ)) and e["ret"] == "0"]
+            nxt = [e for e in stacks[victim + 1:] if int(e["ret"], 16) == st]
+            if not un or (nxt and un[0]["i0"] > nxt[0]["i0"]):
+                leaked.append("stack mapping(%d bytes)" % STACK_SZ)
     if leaked and sp is not None and sp[0] == 0:
         v.add("C06:spawn-failed-%s:resources-leaked" % which,
-              "spawn #%d returned Err after its %s failed, but what it had allocated before is never freed: %s (the closure is never dropped either)" %
-              (victim, which, ", ".join(leaked)))
+              "spawn #%d returned Err after its %s failed, but what it had set up before is never released: %s%s" %
+              (victim, which, ", ".join(leaked), " (so the closure and what it captured are never dropped)" if any(l.startswith("closure") for l in leaked) else ""))
     info["outcome"] += ":err" if sp and sp[0] == 0 else ":ok"
     return v, info, rep
 
@@ -1205,10 +1245,21 @@ def eval_fault(binp, case):
 EVAL = dict(gated=eval_gated, free=eval_free, hist=eval_hist, fault=eval_fault)
 
 
+_RETRIES = [0]
+
+
 def run_case(binp, case):
     t0 = time.time()
     try:
         v, info, rep = EVAL[case["kind"]](binp, case)
+        if case["kind"] == "gated" and any(k.startswith("C05:conformance") for k, _ in v) and _RETRIES[0] < 6:
+            # a busy machine must not look like a conformance failure: once more, alone-ish, with a long watchdog
+            _RETRIES[0] += 1
+            v2, info2, rep2 = EVAL["gated"](binp, dict(case, timeout_ms=20000))
+            info2["retried"] = True
+            if not any(k.startswith("C05:conformance") for k, _ in v2):
+                info2["first_attempt"] = [k for k, _ in v]
+            v, info, rep = v2, info2, rep2
     except Exception as ex:  # machinery problem, never silently a pass
         v, info, rep = V([("MACHINERY:exception", "%s: %s" % (type(ex).__name__, ex))]), dict(outcome="exception"), None
     info["wall"] = round(time.time() - t0, 3)
@@ -1239,7 +1290,7 @@ def enumerate_cases(tier, model):
     for (p, op), traces in one.items():
         for ti, (tr, fin) in enumerate(traces):
             for ty in TYPES:
-                st = thorough or ty in ("u64", "str")
+                st = True
                 cases.append(dict(kind="gated", specs=[(ty, p, op)], order="f", trace=tr, strace=st, delay_us=0,
                                   name="g1/%s/%s/t%d" % (proto_name(p, op), ty, ti)))
             if op == "j" or thorough:
@@ -1263,22 +1314,49 @@ def enumerate_cases(tier, model):
         tb = [[g for _o, g, _k in tr] for tr, _ in one[b]]
         combos = [(i, j) for i in range(len(ta)) for j in range(len(tb))]
         if not thorough:
-            # a few: first, last, and a spread
-            step = max(1, len(combos) // 6)
-            combos = combos[::step][:7]
+            # a spread of the trace pairs (thorough: all of them)
+            step = max(1, len(combos) // 24)
+            combos = combos[::step][:25]
+        nlin = 0
         for ci, (i, j) in enumerate(combos):
-            pols = ("early", "late", "rr") if thorough else ("rr",)
-            pol = pols[ci % len(pols)]
-            tr, fin = linearize(cfg, [ta[i], tb[j]], pol)
-            if tr is None:
-                model.setdefault("linearize_failures", []).append((a, b, order, i, j))
-                continue
-            tys = tymix[n2 % len(tymix)]
-            n2 += 1
-            cases.append(dict(kind="gated", specs=[(tys[0], a[0], a[1]), (tys[1], b[0], b[1])], order=order, trace=tr,
-                              strace=(ci % 4 == 0) or not thorough, delay_us=0,
-                              name="g2/%s|%s/%s/%d-%d/%s" % (proto_name(*a), proto_name(*b), order, i, j, pol)))
-        model["two"].append((a, b, order, len(combos)))
+            pols = ("early", "late", "rr")
+            seen_lin = set()
+            for pol in (pols if thorough else (pols[ci % 3],)):
+                tr, fin = linearize(cfg, [ta[i], tb[j]], pol)
+                if tr is None:
+                    model.setdefault("linearize_failures", []).append((a, b, order, i, j))
+                    continue
+                key = tuple(tr)
+                if key in seen_lin:
+                    continue  # two policies gave the same interleaving
+                seen_lin.add(key)
+                tys = tymix[n2 % len(tymix)]
+                n2 += 1
+                nlin += 1
+                cases.append(dict(kind="gated", specs=[(tys[0], a[0], a[1]), (tys[1], b[0], b[1])], order=order, trace=tr,
+                                  strace=True, delay_us=(2000 if thorough and n2 % 16 == 0 else 0),
+                                  name="g2/%s|%s/%s/%d-%d/%s" % (proto_name(*a), proto_name(*b), order, i, j, pol)))
+        model["two"].append((a, b, order, nlin))
+    # --- 3 threads under gates (thorough): a spread over the triple products
+    model["three"] = 0
+    if thorough:
+        for trip, order in (([(False, "j"), (True, "d"), (False, "d")], "f"), ([(True, "j"), (False, "d"), (False, "j")], "r")):
+            cfg = Cfg(trip, order)
+            per = [[[g for _o, g, _k in tr] for tr, _ in one[x]] for x in trip]
+            total = len(per[0]) * len(per[1]) * len(per[2])
+            stepn = max(1, total // 150)
+            for ci, idx in enumerate(range(0, total, stepn)):
+                i, r_ = divmod(idx, len(per[1]) * len(per[2]))
+                j, k3 = divmod(r_, len(per[2]))
+                pol = ("early", "late", "rr")[ci % 3]
+                tr, fin = linearize(cfg, [per[0][i], per[1][j], per[2][k3]], pol)
+                if tr is None:
+                    model.setdefault("linearize_failures", []).append((trip, order, i, j, k3))
+                    continue
+                tys = (TYPES[ci % 8], TYPES[(ci + 3) % 8], TYPES[(ci + 5) % 8])
+                model["three"] += 1
+                cases.append(dict(kind="gated", specs=[(tys[x], trip[x][0], trip[x][1]) for x in range(3)], order=order, trace=tr,
+                                  strace=True, delay_us=0, name="g3/%s/%d-%d-%d/%s" % (order, i, j, k3, pol)))
     # --- ungated: n threads alive at once, mixed types/outcomes/ops
     ns = range(1, 65) if thorough else (1, 2, 8)
     for n in ns:
@@ -1459,7 +1537,7 @@ def collect(tier, env=None, use_cache=True):
     out = dict(stamp=stamp, when=time.time(), tier=tier, model=dict(states=mc["states"], transitions=mc["transitions"], configs=mc["configs"],
                errors=[(n, [list(t) for t in th], o, [list(l) for l in tr]) for n, th, o, tr in mc["errors"]], mutants=mc["mutants"],
                one={proto_name(*k): len(vv) for k, vv in model["one"].items()}, two=[(proto_name(*a), proto_name(*b), o, n) for a, b, o, n in model["two"]],
-               linearize_failures=len(model.get("linearize_failures", []))),
+               three=model.get("three", 0), linearize_failures=len(model.get("linearize_failures", []))),
                notes=notes, results=[dict(case=c, violations=v, info=i) for c, v, i in results], wall=round(time.time() - t_start, 2))
     os.makedirs(WORK, exist_ok=True)
     with open(cache, "w") as f:
@@ -1494,12 +1572,10 @@ def make_report(prop, tier, data):
         rep["notes"].append("could not linearise %d two-thread trace pairs" % data["model"]["linearize_failures"])
     seen = set()
     kinds = {}
+    sample_n = {}
     for r in data["results"]:
         case, vs, info = r["case"], r["violations"], r["info"]
         k = case["kind"]
-        relevant = (prop == "C05" and k in ("gated", "free", "fault")) or (prop == "C06" and k in ("gated", "free", "hist", "fault"))
-        if not relevant:
-            continue
         rep["evaluations"] += 1
         kinds[k] = kinds.get(k, 0) + 1
         sig = (k, json.dumps(case.get("specs")), json.dumps(case.get("trace")), case.get("order"), case.get("inject"), case.get("reps"), case.get("delay_us"))
@@ -1519,13 +1595,16 @@ def make_report(prop, tier, data):
                 rep["notes"].append("%s: %s (%s)" % (key, desc, case.get("name")))
             elif key.startswith(prop + ":"):
                 add(key, desc, case)
-        if len(rep["samples"]) < 10 and (rep["evaluations"] % 97 == 1 or k in ("fault",) and len(rep["samples"]) < 3):
-            rep["samples"].append(dict(name=case.get("name"), argv=info.get("argv"), inject=case.get("inject"), outcome=info.get("outcome"),
+        nk = sample_n.get(oc.split(":")[0] if k != "gated" else oc, 0)
+        if len(rep["samples"]) < 14 and nk < 1:
+            sample_n[oc.split(":")[0] if k != "gated" else oc] = nk + 1
+            rep["samples"].append(dict(name=case.get("name"), probe_argv=info.get("argv"), strace_inject=case.get("inject"),
+                                       model_prediction=info.get("outcome"), conformant=info.get("conformant"),
                                        violations=[key for key, _ in vs]))
     rep["violations"] = list(viol.values())
     m = data["model"]
     rep["bounds"] = dict(tier=tier, model_configs=m["configs"], one_thread_traces=m["one"], two_thread_pairs=len(m["two"]),
-                         two_thread_traces=sum(x[3] for x in m["two"]), runs_by_kind=kinds, result_types=list(TYPES),
+                         two_thread_traces=sum(x[3] for x in m["two"]), three_thread_traces=m.get("three", 0), runs_by_kind=kinds, result_types=list(TYPES),
                          history_reps=2000 if tier == "thorough" else 200, ungated_max_threads=64 if tier == "thorough" else 8,
                          model_mutants_rejected="%d/%d" % (sum(1 for _m, h in m["mutants"] if h), len(m["mutants"])))
     rep["rule"] = ("protocol model of spawn/join/drop/thread-exit/kernel-exit with steps = the H3 gates: BFS over all interleavings (1, 2%s threads), "
